@@ -256,7 +256,7 @@ func newUBJEnc(t *rapid.T) *ref.UBJEnc {
 func init() {
 	register(&Property{
 		ID:   "C05",
-		Rule: "rapid draws a value tree (ints over [-2^64,2^64-1], float32/64 bit patterns, arbitrary byte strings/keys, nested arrays/maps) and renders it with the harness' constructive CBOR encoder under drawn choices (argument width minimal or wider, definite/indefinite containers, byte string vs array, null/undefined); 1 in 5 cases splices exactly one unsupported item (negative below -2^63, tag, half float, indefinite string, simple value, non-text key) at a drawn position; deterministic part: 21 boundary values x every argument width that holds them x {unsigned, negative}, string/array/map lengths in every width, every unsupported item, each in 6 nesting contexts (top, definite/indefinite array and map, indefinite inside definite); 1 in 4 documents is parsed after 1..2 earlier calls of the package-level Parse on truncated prefixes / hostile headers; 1 in 3 documents arrives through ParseReader in generated chunks; oracle = independent RFC 7049 decoder; non-trivial = non-minimal width, indefinite container, negative with top argument bit, depth>=2 or unsupported item; distinct by document hash",
+		Rule: "rapid draws a value tree (ints over [-2^64,2^64-1], float32/64 bit patterns, arbitrary byte strings/keys, nested arrays/maps) and renders it with the harness' constructive CBOR encoder under drawn choices (argument width minimal or wider, definite/indefinite containers, byte string vs array, null/undefined); 1 in 5 cases splices exactly one unsupported item (negative below -2^63, tag, half float, indefinite string, simple value, non-text key) at a drawn position; deterministic part: 21 boundary values x every argument width that holds them x {unsigned, negative}, string/array/map lengths in every width, every unsupported item, each in 6 nesting contexts (top, definite/indefinite array and map, indefinite inside definite); EVERY tag number of the direct, 1-byte and 2-byte widths, 48 registered/boundary tag numbers (incl. 55799) in all five widths x 6 payloads x 6 contexts, every half-float bit pattern, every simple value; 1 in 4 documents is parsed after 1..2 earlier calls of the package-level Parse on truncated prefixes / hostile headers; 1 in 3 documents arrives through ParseReader in generated chunks; oracle = independent RFC 7049 decoder; non-trivial = non-minimal width, indefinite container, negative with top argument bit, depth>=2 or unsupported item; distinct by document hash",
 		New:  func() any { return &DocCase{} },
 		Draw: func(t *rapid.T) any {
 			if rapid.IntRange(0, 4).Draw(t, "unsup") == 4 {
